@@ -168,14 +168,17 @@ def run(run):
             finally:
                 shutil.rmtree(root, ignore_errors=True)
         # ---- projects of many small files (hundreds to thousands): every file is merged, the scan ends
+        link_ref = None
         for nf in ([450, 1300, 2000] if quick else [250, 450, 650, 1300, 2000, 2600]):
             root = C.scratch("c07big")
+            link_ref = None
             try:
                 for i in range(nf):
                     dname = os.path.join(root, "p%02d" % (i % 17))
                     os.makedirs(dname, exist_ok=True)
                     with open(os.path.join(dname, "T%d.java" % i), "w") as f:
-                        f.write("package p%02d;\nclass T%d { int f%d; void m%d() { f%d = %d; } }\n" % (i % 17, i, i, i, i, i))
+                        f.write("package p%02d;\nclass T%d { int f%d; void m%d() { f%d = %d; h%d(); h%d(1); h%d(); h%d(2); h%d(); h%d(3); } void h%d() { } void h%d(int a) { } }\n" %
+                                (i % 17, i, i, i, i, i, i, i, i, i, i, i, i, i))
                 # (one processor: the collector falls behind the workers and results queue up by the hundred)
                 for procs in (([1] if nf == 2000 else [0]) if quick else [1, 16]):
                     r = h.call(op="scan-order", dir=root, graph="g", order=[], procs=procs, timeout=120)
@@ -186,6 +189,20 @@ def run(run):
                         if r.get("outcome") in ("died", "hang"):
                             h = C.Harness()
                         continue
+                    # call links: the same multiset whatever the number of processors (one processor first, as reference)
+                    links = collections.Counter((a, b) for a, b in r["edges"])
+                    if nf == 450:
+                        if link_ref is None:
+                            r1 = h.call(op="scan-order", dir=root, graph="g", order=[], procs=1, timeout=120)
+                            link_ref = collections.Counter((a, b) for a, b in r1["edges"]) if r1.get("outcome") == "ok" else None
+                        for rep in range(3):
+                            rr = r if rep == 0 else h.call(op="scan-order", dir=root, graph="g", order=[], procs=16, timeout=120)
+                            lk = collections.Counter((a, b) for a, b in rr["edges"]) if rr.get("outcome") == "ok" else None
+                            stats["link_comparisons"] += 1
+                            if link_ref is not None and lk is not None and lk != link_ref:
+                                run.violation("C07:run-to-run-difference", "two scans of the same %d-file project yield different call links: %d links on one processor, %d on sixteen (%d missing)" %
+                                              (nf, sum(link_ref.values()), sum(lk.values()), sum((link_ref - lk).values())), dict(nfiles=nf, procs=16))
+                                break
                     seen = {n["file"] for n in r["nodes"]}
                     classes = sum(1 for n in r["nodes"] if n["type"] == "class_declaration")
                     if len(seen) != nf or classes != nf:
